@@ -99,10 +99,28 @@ def contains_dataclass(v):
     return False
 
 
+def _as_enum(t, v):
+    """the member of the annotated enumeration for a plain string (applications pass RegistrationStatus.accepted, not
+    "Accepted"); the string itself where the enumeration has no such member"""
+    import enum
+    if MIXED.get("enums") and isinstance(t, type) and issubclass(t, enum.Enum) and isinstance(v, str):
+        try:
+            return t(v)
+        except ValueError:
+            return v
+    return v
+
+
 def _conv(t, v):
     if t is None or v is None:
         return v
     origin = typing.get_origin(t)
+    if MIXED.get("enums") and isinstance(v, str):
+        import enum
+        cands = [t] if isinstance(t, type) else [a for a in typing.get_args(t) if isinstance(a, type)]
+        for a in cands:
+            if issubclass(a, enum.Enum):
+                return _as_enum(a, v)
     if origin is typing.Union:
         for a in typing.get_args(t):
             if isinstance(a, type) and dataclasses.is_dataclass(a) and isinstance(v, dict):
@@ -167,12 +185,14 @@ def _make(modname_, version, action, snake, as_dataclasses):
     if as_dataclasses:
         MIXED["on"] = as_dataclasses == "mixed"
         MIXED["inner"] = as_dataclasses == "inner"
+        MIXED["enums"] = as_dataclasses == "enums"
         MIXED["top"] = cls
         try:
             return dataclassify(cls, copy.deepcopy(snake))
         finally:
             MIXED["on"] = False
             MIXED["inner"] = False
+            MIXED["enums"] = False
             MIXED["top"] = None
     return cls(**copy.deepcopy(snake))
 
